@@ -345,12 +345,14 @@ Definition owns_o (p : pc) : option chan :=
 Definition finished (p : pc) : bool := match p with PDone _ | PExit => true | _ => false end.
 
 (** ** macro steps for the lock-step correspondence: the harness holds goroutines at "gates"
-    (DecisionFunc, first read of the name's bundle, Issuer.Issue) and lets everything else run *)
+    (DecisionFunc, the existence check of handshakeMaintenance, first read of the name's bundle,
+    Issuer.Issue) and lets everything else run *)
 Definition at_gate (s : state) (th : thread) : bool :=
   match t_pc th with
   | PGate1 _ | PGate2 _ | PLoad | PObtLoad _
   | PRenGate _ _ _ _ | PRenLoad _ _ _ _ | PRenIssue _ _ _ _ | PRenReload _ _ _ => true
   | PObtain _ _ => is_none (store s (t_name th))
+  | PMaint c => needs_renew c && negb (revoked c)   (* the storage existence check of renewIfNecessary *)
   | _ => false
   end.
 
